@@ -527,6 +527,9 @@ def _collect_sort(s, sorts):
         _, parts = sort_args(s)
         for p in parts:
             _collect_sort(p, sorts)
+    elif s not in (INT, BOOL, STR, REGLAN):
+        # a spec-declared uninterpreted sort (e.g. CommitSet)
+        sorts.add(s)
 
 
 def _find_cards(t, out):
@@ -785,7 +788,7 @@ def abstract_seqs(terms):
     return axioms + out
 
 
-def script(assertions, dialect='cvc5', outputs=None, logic=None, produce_models=False, useq=False):
+def script(assertions, dialect='cvc5', outputs=None, logic=None, produce_models=False, useq=False, interp=None):
     if useq:
         a2 = abstract_seqs(list(assertions))
         if a2 is None:
@@ -811,9 +814,18 @@ def script(assertions, dialect='cvc5', outputs=None, logic=None, produce_models=
                      else '(set-logic ALL)')
     if produce_models:
         lines.append('(set-option :produce-models true)')
+    isorts = (interp or {}).get('sorts', {})
+    ifuns = (interp or {}).get('funs', {})
     for s in sorted(sorts, key=lambda x: (len(x), x)):
+        if s in isorts:
+            # a concrete instance of an abstract sort (refutation only)
+            lines.append('(define-sort %s () %s)' % (s, isorts[s]))
+            continue
         lines.append('(declare-sort %s 0)' % (qname(s) if s.startswith('USeq<') else s))
     for (kind, name), (argsorts, rs) in sorted(decls.items()):
+        if name in ifuns:
+            lines.append(ifuns[name])
+            continue
         lines.append('(declare-fun %s (%s) %s)' % (
             qname(name), ' '.join(sort_smt(s, dialect) for s in argsorts),
             sort_smt(rs, dialect)))
